@@ -31,6 +31,7 @@ type CaseC03 struct {
 	Honest  int        `json:"honest"` // honest writes interleaved after the hostile delivery
 	Chain   int        `json:"chain"`  // length of the hostile chain (the head's own hostile ancestors)
 	Shared  bool       `json:"shared_opts"` // the victim opened a wildcard sibling database first, with the same options value
+	AC      string     `json:"ac,omitempty"` // "" = ipfs controller (list in the manifest) | "simple" (bundled in-memory controller, list passed by every opener)
 }
 
 func genC03(rt *rapid.T) CaseC03 {
@@ -48,6 +49,9 @@ func genC03(rt *rapid.T) CaseC03 {
 		Honest:  rapid.IntRange(0, 2).Draw(rt, "honest"),
 		Chain:   rapid.IntRange(1, 3).Draw(rt, "chain"),
 		Shared:  rapid.Bool().Draw(rt, "shared"),
+	}
+	if c.List != "default" && rapid.IntRange(0, 3).Draw(rt, "simpleAC") == 0 {
+		c.AC, c.Shared = "simple", false
 	}
 	c.Hist = genHist(rt, c.Authors, 6)
 	return c
@@ -67,7 +71,7 @@ func execC03x(c CaseC03, eventsOnly bool) *Outcome {
 		}
 	}
 	world.ResetHooks()
-	opts := hostileOpts{Type: c.Type, Authors: c.Authors, VictimWrites: true, SharedOpts: c.Shared}
+	opts := hostileOpts{Type: c.Type, Authors: c.Authors, VictimWrites: true, SharedOpts: c.Shared, ACType: c.AC}
 	authors := c.Authors
 	switch c.List {
 	case "wildcard":
@@ -248,6 +252,9 @@ func execC03x(c CaseC03, eventsOnly bool) *Outcome {
 	reached := len(cl.W.Peers[env.V].GetLog) > fetchedBefore
 	o.NonTrivial = reached && len(env.hostile) > 0
 	o.Labels = append(o.Labels, "kind:"+c.Kind, "route:"+route, "list:"+c.List)
+	if c.AC != "" {
+		o.Labels = append(o.Labels, "controller:"+c.AC)
+	}
 	if eventsOnly {
 		// the canary's own event has been received once the watcher has drained the subscription
 		time.Sleep(2 * time.Millisecond)
@@ -282,7 +289,7 @@ func localWriteC03(ctx context.Context, env *hostileEnv, c CaseC03, o *Outcome, 
 	// the non-writer's own replica, replication on, with a topic peer (the victim) so that a publish would be seen
 	px := cl.W.Peers[env.X]
 	_ = cl.Stores[env.X].Close()
-	sx, err := px.DB.Open(ctx, cl.Addr, &orbitdb.CreateDBOptions{})
+	sx, err := px.DB.Open(ctx, cl.Addr, cl.OpenOpts(&orbitdb.CreateDBOptions{}))
 	if err != nil {
 		return fail("harness: reopen attacker store: %v", err)
 	}
